@@ -66,6 +66,8 @@ def run_entry(spec, res):
     for i in range(spec["n"]):
         while True:
             N, W = int(rng.integers(1, 5)), int(rng.integers(1, 8))
+            if i % 2 == 0:
+                W = int(rng.integers(5, 8))      # classes with 5, 6, 7 occurrences: k * value is not exact in narrow dtypes
             if N * W <= 20:
                 break
         n = N * W
@@ -119,7 +121,7 @@ def run_e2e(spec, res):
     rng = np.random.default_rng(spec["seed"])
     wc.NW_CAP[0] = 8
     for i in range(spec["n"]):
-        base = wc.gen_single(rng, "small") if (i + int(spec["seed"][2])) % 4 else wc.gen_joint(rng, "joint")
+        base = wc.gen_single(rng, "small") if (i + int(spec["seed"][2])) % 5 else wc.gen_joint(rng, "joint")
         base["data"]["flavor"] = "plain"
         base["data"]["n_reg"] = base["K"]
         base["data"]["seg"] = 8
